@@ -57,6 +57,9 @@ both('conds', ['relation p(i32, i32)', 'relation o(Option<i32>, i32)', 'relation
       'res(x, y) <-- foo(x, y) let s = x + y if s > 2, bar(y, z)',
       'q(*v) <-- p(x, y), o(w, y) if let Some(v) = w',
       'res(x, w) <-- foo(x, y), for w in 0..*y, if w > 1'], tags=['conds'])
+both('at_pat', ['relation item(Option<i32>)', 'relation val(i32, i32)', 'relation hit(Option<i32>, i32)', 'relation o(Option<i32>, i32)'],
+     ['hit(whole.clone(), z) <-- item(?whole @ Some(y)), val(y, z)', 'hit(w.clone(), z) <-- o(w, x), if let all @ Some(y) = w, val(y, z), if all.is_some()'],
+     tags=['patarg', 'conds'])
 both('paren_pat', ['relation foo(i32)', 'relation bar(i32, i32)', 'relation o(Option<i32>, i32)', 'relation out(i32, i32)'],
      ['out(y, z) <-- foo(x), let (y) = x + 1, bar(y, z)', 'out(y, z) <-- foo(x), for (y) in 0..3, bar(y, z)',
       'out(*v, z) <-- o(w, x), if let (Some(v)) = w, bar(v, z)'], tags=['conds'])
